@@ -7,6 +7,10 @@
 // events (deliveries, Ack/Nack of every delivered copy, destination Publish calls) against the
 // statement of the property. FanOut has no external destination (its destination is its private
 // GoChannel), so its oracle is "every FanOut subscription of the topic receives the message".
+//
+// The cases behind the first serialCases(tier) ones keep SEVERAL consumed messages in flight on one source
+// subscription and make the destination look at its arguments late (concurrent.go). Destination calls are
+// attributed to consumed copies through a context tag (flightKey), so UUIDs may be empty or repeated.
 package c17
 
 import (
@@ -26,27 +30,54 @@ func init() {
 	vlib.Register(&vlib.Prop{
 		ID:    "C17",
 		Level: "exploration",
-		Cases: func(tier string) int { return vlib.TierN(tier, 2000, 160000) },
+		Cases: func(tier string) int { return serialCases(tier) + vlib.TierN(tier, 640, 25600) },
 		Rule: "case idx%4 selects the component (0 Forwarder+forwarder.Publisher, 1 FanIn, 2 Requeuer, 3 FanOut); the rest is drawn from the case PRNG: " +
 			"component configuration (forwarder topic default/custom, AckWhenCannotUnwrap, 0-2 pass-through middlewares, own/external router, close timeout; " +
 			"1-4 fan-in source topics; requeuer topic function const/from-metadata(with errors)/from-uuid, delay 0..2ms, own/external router; 1-3 fan-out topics x 0-3 subscriptions, " +
 			"duplicate AddSubscription, subscriber nack plans), 3-12 messages with random UUID suffix/payload (nil, empty, binary)/metadata (0-5 random UTF-8 pairs, " +
 			"existing retries counter absent/\"0\"/\"41\"/garbage/huge/beyond-int64), malformed envelopes (random bytes, empty, truncated, non-object JSON, no/empty/null/ill-typed destination, " +
 			"bad base64) and hand-written envelopes, and for every message a destination failure plan (error, context.Canceled, panic on the first 0-3 attempts) with 0-3 redeliveries. " +
+			"Messages are unusual but legal now and then: empty UUID (1 in 14), the UUID of an earlier message of the case (1 in 14), nil Metadata map (Publisher input; consumed copies of FanIn), " +
+			"hand-written envelopes with \"uuid\":\"\", null payload, {} or null metadata (valid) and with uuid/payload/metadata left out or \"uuid\":null (class handmade-partial: may be refused like a non-envelope or forwarded exactly as written, nothing invented); " +
+			"destination calls are attributed to consumed copies through a context tag, so identities need not be unique. " +
+			"The last 640 (quick) / 25600 (thorough) cases are the several-in-flight classes concurrent/<component> (component rotates with the index): every source topic is delivered by 2-4 deliverers at once (a prefetching subscriber; each still redelivers its own message after a Nack) " +
+			"and the destination reads its arguments late: its calls (Forwarder, FanIn, Requeuer: a gated publisher in front of the recording one; FanIn 1 in 3 and FanOut: hook router.handle.before_publish) are held until every active deliverer's message waits there or the process is quiescent, " +
+			"then all or a random subset is released; the concurrent Forwarder class also publishes stage 1 from 2-3 goroutines through one forwarder.Publisher with a gated outbox (60% when >=2 destination topics). " +
 			"Router hook points get random yields. A case is non-trivial when at least one message was relayed and judged AND the case contained a fault or edge " +
-			"(injected destination failure, malformed envelope, existing retries counter, >=2 source topics, or >=2 fan-out subscriptions); distinct = distinct (component, configuration, message kinds, failure plans, observed settle sequence).",
+			"(injected destination failure, malformed envelope, existing retries counter, >=2 source topics, >=2 fan-out subscriptions, or an unusual message); a several-in-flight case is non-trivial when a message was relayed and at least one gate round held >=2 destination calls at once; distinct = distinct (component, configuration, message kinds, failure plans, observed settle sequence).",
 		Assumptions: []string{
 			"strings that travel through the Forwarder's JSON envelope (UUID, metadata, destination topic) are valid UTF-8: encoding/json replaces invalid bytes with U+FFFD, which the statement does not address; FanIn, FanOut and Requeuer are also fed non-UTF-8 strings",
 			"a prior retries counter of exactly MaxInt64 is not generated (previous+1 is not representable in the int the Requeuer documents)",
 			"a counter is 'existing' when it is a decimal integer that fits an int (strconv.Atoi syntax); anything else counts as 0, as for an absent key",
 			"FanOut's destination is its internal GoChannel, which cannot be scripted to fail: only loss/invention/ack-before-accept are judged for it",
 			"'never settled / never delivered' is decided by the quiescence detector, not by a time-out",
+			"a hand-written envelope that leaves out uuid, payload or metadata (or has \"uuid\":null) may be treated either as a non-envelope or as an envelope whose absent members are empty: the statement does not define envelope validity beyond what forwarder.Publisher writes",
+			"consumed messages with a nil Metadata map are generated for FanIn only: the Requeuer's counter update needs a map, and every Subscriber that builds messages with message.NewMessage/Copy delivers one",
+			"FanOut cases identify a message at the subscriptions by the metadata key c17-id (UUIDs may be empty or repeated)",
+			"several-in-flight FanOut cases judge ack-before-accept by counting (acked source copies of a topic < internal Publish calls entered for it), the hook only names the topic",
 		},
 		Run: run,
 	})
 }
 
+// serialCases is the number of cases of the one-message-in-flight classes; the cases behind them are the
+// several-in-flight classes (concurrent.go).
+func serialCases(tier string) int { return vlib.TierN(tier, 2000, 160000) }
+
 func run(e *vlib.Env) vlib.Result {
+	if j := e.Idx - serialCases(e.Tier); j >= 0 {
+		// the driver shards by idx%16: rotate so that every shard gets every component
+		switch (j + j/16) % 4 {
+		case 0:
+			return runFanInOpt(e, true)
+		case 1:
+			return runForwarderOpt(e, true)
+		case 2:
+			return runRequeuerOpt(e, true)
+		default:
+			return runFanOutOpt(e, true)
+		}
+	}
 	switch e.Idx % 4 {
 	case 0:
 		return runForwarder(e)
@@ -90,6 +121,12 @@ type relayMsg struct {
 	Plan         []failKind       // scripted outcome of the destination call of delivery attempt i (past the plan: ok)
 	MaxRedeliver int
 	RetriesKey   string // Requeuer: the metadata key holding the counter ("" otherwise)
+	NilMeta      bool   // the consumed copies carry a nil Metadata map (FanIn, FanOut)
+	// Optional: a hand-written envelope that leaves out members forwarder.Publisher always writes (uuid, payload,
+	// metadata; or gives null for the uuid). The statement does not say whether that is "a valid forwarder envelope",
+	// so both readings are accepted: not forwarded and settled as AckWhenCannotUnwrap says, or forwarded - then
+	// exactly with what the envelope holds (absent members empty), nothing invented.
+	Optional bool
 
 	copies  []*copyRec // guarded by monitor.mu while the case runs
 	dropped bool       // the subscription ended while this message was being delivered
@@ -112,24 +149,36 @@ type callRec struct {
 }
 
 type flight struct {
-	rm  *relayMsg
-	rec *copyRec
+	rm   *relayMsg
+	rec  *copyRec
+	mon  *monitor
+	done bool // the deliverer has observed the settlement (or the end of the subscription); guarded by monitor.mu
 }
+
+// flightKey is the context key under which every delivered copy carries its *flight. All four components hand
+// the consumed message's context on to the relayed message, which lets the monitor attribute a destination
+// call to the consumed copy even when UUIDs are empty or repeated and several copies are in flight. It is an
+// aid only: a call without the tag is attributed by UUID as before.
+type flightKey struct{}
 
 // monitor attributes destination calls to in-flight consumed copies.
 type monitor struct {
 	mu        sync.Mutex
-	serial    bool               // at most one consumed message is in flight (single subscription)
-	byKey     map[string]*flight // in flight, keyed by the UUID the destination message must carry
-	ended     map[string]*flight // most recent finished delivery per key
+	serial    bool                 // at most one consumed message is in flight (single subscription)
+	byKey     map[string][]*flight // in flight, keyed by the UUID the destination message must carry
+	ended     map[string]*flight   // most recent finished delivery per key
 	lastEnded *flight
+	flights   []*flight // every delivery of the case, in begin order
+	nInFlight int
+	maxFlight int // largest number of copies in flight at the same time
+	byTag     int // destination calls attributed through the context tag
 	strays    []*vlib.PubCall
 	decision  map[int]failKind // destination call number -> scripted outcome
 	nFail     int
 }
 
 func newMonitor(serial bool) *monitor {
-	return &monitor{serial: serial, byKey: map[string]*flight{}, ended: map[string]*flight{}, decision: map[int]failKind{}}
+	return &monitor{serial: serial, byKey: map[string][]*flight{}, ended: map[string]*flight{}, decision: map[int]failKind{}}
 }
 
 func (rm *relayMsg) key() string {
@@ -139,23 +188,65 @@ func (rm *relayMsg) key() string {
 	return rm.Orig.UUID
 }
 
-func (mon *monitor) begin(rm *relayMsg, rec *copyRec) {
+func (mon *monitor) begin(f *flight) {
 	mon.mu.Lock()
-	rm.copies = append(rm.copies, rec)
-	mon.byKey[rm.key()] = &flight{rm, rec}
+	f.mon = mon
+	f.rm.copies = append(f.rm.copies, f.rec)
+	k := f.rm.key()
+	mon.byKey[k] = append(mon.byKey[k], f)
+	mon.flights = append(mon.flights, f)
+	mon.nInFlight++
+	if mon.nInFlight > mon.maxFlight {
+		mon.maxFlight = mon.nInFlight
+	}
 	mon.mu.Unlock()
 }
 
-func (mon *monitor) end(rm *relayMsg, rec *copyRec, settle string) {
+func (mon *monitor) end(f *flight, settle string) {
 	mon.mu.Lock()
-	rec.settle = settle
-	f := mon.byKey[rm.key()]
-	delete(mon.byKey, rm.key())
-	if f != nil {
-		mon.ended[rm.key()] = f
-		mon.lastEnded = f
+	f.rec.settle = settle
+	f.done = true
+	k := f.rm.key()
+	l := mon.byKey[k]
+	for i, g := range l {
+		if g == f {
+			l = append(l[:i:i], l[i+1:]...)
+			break
+		}
 	}
+	if len(l) == 0 {
+		delete(mon.byKey, k)
+	} else {
+		mon.byKey[k] = l
+	}
+	mon.ended[k] = f
+	mon.lastEnded = f
+	mon.nInFlight--
 	mon.mu.Unlock()
+}
+
+// pick chooses, among the in-flight copies that must produce the same UUID, the one a destination call belongs to:
+// one that has no call yet and whose expected value equals the published one, else one without a call, else the first.
+func pick(l []*flight, c *vlib.PubCall) *flight {
+	var noCall *flight
+	for _, f := range l {
+		if len(f.rec.calls) > 0 {
+			continue
+		}
+		if noCall == nil {
+			noCall = f
+		}
+		if len(c.Msgs) > 0 && f.rm.Want.SameValue(c.Msgs[0]) {
+			return f
+		}
+	}
+	if noCall != nil {
+		return noCall
+	}
+	if len(l) > 0 {
+		return l[0]
+	}
+	return nil
 }
 
 // onPublish runs inside every destination Publish call (vlib.Pub.OnPublish).
@@ -164,20 +255,26 @@ func (mon *monitor) onPublish(c *vlib.PubCall) {
 	defer mon.mu.Unlock()
 	var f *flight
 	late := false
-	if len(c.Msgs) > 0 {
-		f = mon.byKey[c.Msgs[0].UUID]
+	if len(c.Msgs) > 0 && c.Msgs[0] != nil {
+		if g, ok := c.Msgs[0].Context().Value(flightKey{}).(*flight); ok && g != nil && g.mon == mon {
+			f, late = g, g.done
+			mon.byTag++
+		}
 	}
-	if f == nil && len(c.Msgs) > 0 {
+	if f == nil && len(c.Msgs) > 0 && c.Msgs[0] != nil {
+		f = pick(mon.byKey[c.Msgs[0].UUID], c)
+	}
+	if f == nil && len(c.Msgs) > 0 && c.Msgs[0] != nil {
 		if g := mon.ended[c.Msgs[0].UUID]; g != nil {
 			f, late = g, true
 		}
 	}
-	if f == nil && mon.serial && len(mon.byKey) == 1 {
-		for _, g := range mon.byKey {
-			f = g
+	if f == nil && mon.serial && mon.nInFlight == 1 {
+		for _, l := range mon.byKey {
+			f = l[0]
 		}
 	}
-	if f == nil && mon.serial && len(mon.byKey) == 0 && mon.lastEnded != nil {
+	if f == nil && mon.serial && mon.nInFlight == 0 && mon.lastEnded != nil {
 		f, late = mon.lastEnded, true
 	}
 	if f == nil {
@@ -217,11 +314,15 @@ func (mon *monitor) script(no int, topic string, msgs []*message.Message) error 
 func (mon *monitor) deliver(sp *vlib.Subscription, rm *relayMsg) {
 	for attempt := 0; ; attempt++ {
 		c := rm.Orig.Copy()
-		c.SetContext(sp.Ctx)
+		if rm.NilMeta {
+			c.Metadata = nil // a consumed message built without the constructor
+		}
 		rec := &copyRec{attempt: attempt, m: c}
-		mon.begin(rm, rec)
+		fl := &flight{rm: rm, rec: rec}
+		c.SetContext(context.WithValue(sp.Ctx, flightKey{}, fl))
+		mon.begin(fl)
 		if !sp.Send(c) {
-			mon.end(rm, rec, "")
+			mon.end(fl, "")
 			mon.mu.Lock()
 			rm.dropped = true
 			mon.mu.Unlock()
@@ -237,14 +338,14 @@ func (mon *monitor) deliver(sp *vlib.Subscription, rm *relayMsg) {
 			// a settlement that raced with the end of the subscription still counts
 			settle = vlib.Settled(c)
 			if settle == "" {
-				mon.end(rm, rec, "")
+				mon.end(fl, "")
 				mon.mu.Lock()
 				rm.dropped = true
 				mon.mu.Unlock()
 				return
 			}
 		}
-		mon.end(rm, rec, settle)
+		mon.end(fl, settle)
 		if settle == "ack" || attempt >= rm.MaxRedeliver {
 			return
 		}
@@ -261,6 +362,7 @@ type judgeCfg struct {
 
 type judgeStats struct {
 	relayed, failedCalls, redeliveries, malformed, copies, topicErrors int
+	optionalForwarded, optionalRefused                                 int
 }
 
 func metaDiff(want, got map[string]string) []string {
@@ -321,7 +423,7 @@ func (mon *monitor) judge(res *vlib.Result, msgs []*relayMsg, cfg judgeCfg) judg
 			if rec.settle == "" {
 				continue // dropped, reported above
 			}
-			if !rm.Valid {
+			if !rm.Valid || (rm.Optional && len(rec.calls) == 0) {
 				if rm.Kind == "topic-error" {
 					st.topicErrors++
 					if len(rec.calls) > 0 {
@@ -331,7 +433,11 @@ func (mon *monitor) judge(res *vlib.Result, msgs []*relayMsg, cfg judgeCfg) judg
 					}
 					continue
 				}
-				st.malformed++
+				if rm.Optional {
+					st.optionalRefused++
+				} else {
+					st.malformed++
+				}
 				if len(rec.calls) > 0 {
 					res.Fail("non-envelope-forwarded", "%s: payload %q is not a valid envelope but destination Publish #%d on %q happened", where, clip(rm.Orig.Payload), rec.calls[0].c.No, rec.calls[0].c.Topic)
 					continue
@@ -355,6 +461,9 @@ func (mon *monitor) judge(res *vlib.Result, msgs []*relayMsg, cfg judgeCfg) judg
 			}
 			if len(rec.calls) > 1 {
 				res.Fail("duplicate-relay", "%s: %d destination Publish calls for one consumed copy", where, len(rec.calls))
+			}
+			if rm.Optional {
+				st.optionalForwarded++
 			}
 			cr := rec.calls[0]
 			c := cr.c
@@ -449,6 +558,34 @@ func genMsg(e *vlib.Env, no int, raw bool) *message.Message {
 	}
 	return m
 }
+
+// odd makes the identities of a case's messages unusual but legal now and then: message.Message documents
+// "UUID can be empty", and nothing makes UUIDs unique. The monitor does not rely on UUIDs (context tag).
+type odd struct {
+	prev                     []string
+	emptyUUID, dupUUID, nilM int
+}
+
+// uuid rewrites m.UUID: empty (1 in 14), or the UUID of an earlier message of the case (1 in 14).
+func (o *odd) uuid(r *vlib.Rand, m *message.Message) {
+	switch x := r.Intn(14); {
+	case x == 0:
+		m.UUID = ""
+		o.emptyUUID++
+	case x == 1 && len(o.prev) > 0:
+		m.UUID = o.prev[r.Intn(len(o.prev))]
+		o.dupUUID++
+	}
+	o.prev = append(o.prev, m.UUID)
+}
+
+func (o *odd) count(res *vlib.Result) {
+	res.Count("messages_with_empty_uuid", o.emptyUUID)
+	res.Count("messages_with_repeated_uuid", o.dupUUID)
+	res.Count("messages_with_nil_metadata", o.nilM)
+}
+
+func (o *odd) any() bool { return o.emptyUUID+o.dupUUID+o.nilM > 0 }
 
 // genTopics returns n distinct non-empty topic names with awkward characters.
 func genTopics(e *vlib.Env, tag string, n int, raw bool) []string {
@@ -640,6 +777,15 @@ func fill(res *vlib.Result, st judgeStats, mon *monitor, msgs []*relayMsg, edge 
 	res.Count("dest_failures_injected", st.failedCalls)
 	res.Count("malformed_deliveries", st.malformed)
 	res.Count("topic_errors", st.topicErrors)
+	res.Count("partial_envelopes_forwarded", st.optionalForwarded)
+	res.Count("partial_envelopes_refused", st.optionalRefused)
+	mon.mu.Lock()
+	res.Count("calls_attributed_by_context_tag", mon.byTag)
+	if mon.maxFlight > 1 {
+		res.Count("cases_with_several_copies_in_flight", 1)
+		res.Count("peak_copies_in_flight_sum", mon.maxFlight)
+	}
+	mon.mu.Unlock()
 	res.NonTrivial = st.relayed > 0 && (edge || st.failedCalls > 0 || st.malformed > 0)
 }
 
@@ -655,10 +801,17 @@ type component struct {
 // drive starts the component, delivers every topic's messages serially on that topic's
 // subscription (topics concurrently), stops the component and waits for Run to return.
 // It returns false when the case cannot be judged completely (verdict already set).
-func drive(res *vlib.Result, comp component, src *vlib.Sub, mon *monitor, topics []string, byTopic map[string][]*relayMsg) {
+//
+// With co != nil every topic's list is delivered by co.window deliverers at once (a prefetching subscriber: the
+// next message is handed over before the previous one was settled) and the destination is gated: see gate.
+func drive(res *vlib.Result, comp component, src *vlib.Sub, mon *monitor, topics []string, byTopic map[string][]*relayMsg, co *concOpts) {
 	wd := comp.wd
 	if wd.Watchdog == 0 {
 		wd = vlib.WD
+	}
+	if co != nil {
+		wd.IgnoreFrames = append(append([]string(nil), wd.IgnoreFrames...), gateFrame)
+		defer co.gate.openForever()
 	}
 	var runErr error
 	runDone := started(func() { runErr = comp.run() })
@@ -705,16 +858,16 @@ func drive(res *vlib.Result, comp component, src *vlib.Sub, mon *monitor, topics
 	}
 	var wg sync.WaitGroup
 	for _, t := range topics {
-		wg.Add(1)
-		go func(sp *vlib.Subscription, list []*relayMsg) {
-			defer wg.Done()
-			for _, rm := range list {
-				mon.deliver(sp, rm)
-			}
-		}(subs[t], byTopic[t])
+		spawnDeliverers(&wg, mon, subs[t], byTopic[t], co)
 	}
 	delivDone := started(wg.Wait)
-	settled := waitOrFail(res, delivDone, wd, "unsettled", comp.name+": a delivered message was never acked or nacked")
+	var settled bool
+	if co == nil {
+		settled = waitOrFail(res, delivDone, wd, "unsettled", comp.name+": a delivered message was never acked or nacked")
+	} else {
+		settled = co.deliveryRounds(res, delivDone, wd, comp.name)
+		co.gate.openForever()
+	}
 	ok := shutdown()
 	if !settled && ok {
 		vlib.WaitClosed(delivDone, wd) // the ended subscription releases the blocked deliverer
